@@ -307,8 +307,9 @@ func (p *Policy) UnmarshalJSON(b []byte) error {
 	default:
 		return fmt.Errorf("unknown effect: %v", j.Effect)
 	}
-	for k, v := range j.Annotations {
-		p.unwrap().Annotate(types.Ident(k), types.String(v))
+	// Annotations are kept as an ordered list; add them in key order so that decoding is deterministic.
+	for _, k := range slices.Sorted(maps.Keys(j.Annotations)) {
+		p.unwrap().Annotate(types.Ident(k), types.String(j.Annotations[k]))
 	}
 	var err error
 	p.Principal, err = j.Principal.ToPrincipalResourceNode()
